@@ -164,6 +164,30 @@ const DICT: [&[u8]; 48] = [
 /// Mutates a document in place (1..4 edits).
 pub fn mutate(rng: &mut Rng, doc: &mut Vec<u8>, toks: &[Tok]) {
     let n = 1 + rng.below(3);
+    // rare heavy mutations: something much longer than a chunk / many repetitions of a line
+    if !cfg!(miri) && rng.chance(1, 150) {
+        let at = rng.below(doc.len() + 1);
+        if rng.chance(1, 2) {
+            // a long run of one kind of byte (a token, blank run or comment longer than any chunk)
+            let b = *rng.pick(b"0123456789 \ta\n\r-");
+            let len = *rng.pick(&[300usize, 5000, 17000, 40000, 70000]) + rng.below(64);
+            let run: Vec<u8> = std::iter::repeat(b).take(len).collect();
+            doc.splice(at..at, run);
+        } else {
+            // a line repeated thousands of times
+            let s = doc[..at].iter().rposition(|&c| c == b'\n').map_or(0, |i| i + 1);
+            let e = doc[at..].iter().position(|&c| c == b'\n').map_or(doc.len(), |i| at + i + 1);
+            let line: Vec<u8> = doc[s..e].to_vec();
+            if !line.is_empty() && line.len() < 200 {
+                let times = *rng.pick(&[100usize, 1000, 5000]);
+                let mut rep = Vec::with_capacity(line.len() * times);
+                for _ in 0..times {
+                    rep.extend_from_slice(&line);
+                }
+                doc.splice(s..s, rep);
+            }
+        }
+    }
     for _ in 0..n {
         match rng.below(9) {
             0 if !doc.is_empty() => {
